@@ -775,7 +775,7 @@ class Interp:
         if isinstance(op, ast.BitOr):
             for x, y in ((a, b), (b, a)):
                 X, Y = Z(x), Z(y)
-                for k in (8, 7, 16, 6, 5):
+                for k in (8, 7, 16, 6, 5, 4, 3, 2, 1, 14, 15):
                     if self.ctx.entails(z3.And(Y >= 0, Y < 2**k)) and self.ctx.entails(X % (2**k) == 0):
                         return simp(X + Y)
                 # small flag fields: both within 0..255 -> bitwise via BV round trip
@@ -837,7 +837,7 @@ class Interp:
                     return obj.name
                 return SStr(fresh_str("enumname"))
             if name == "to_bytes":
-                return Builtin("int.to_bytes", bound=self.as_int(obj))
+                return Builtin("m:to_bytes", bound=self.as_int(obj))
             raise EngineError(f"enum attribute {name}")
         if isinstance(obj, ModuleRef):
             full = f"{obj.name}.{name}"
